@@ -93,3 +93,99 @@ def pipelines():
         replace=['BZ2_bzReadClose_c', 'file_wrapper_close', 'remove_buffered_pages_all', 'fileno', 'Bzip2Decompressor_want_buffered_pages_removed'], maythrow={'file_wrapper_close': True},
         enforce='Bzip2Decompressor_close', harness='void harness(void) { struct Bzip2Decompressor* d; Bzip2Decompressor_close(d);' + tail, canaries=both, replay=('c09_bzip2', lambda cex, o: ['search'])))
     return ps
+
+
+# ---- Bzip2BufferDecompressor::read (memory buffer input) relative to the return conventions of BZ2_bzDecompress ------------------------------------------
+def bzbuf_prelude(repo):
+    src = cx.preprocess(cx.strip_comments(open(repo + '/' + BZ).read()))
+    got = [m[1] for m in cx.extract_members(src, 'Bzip2BufferDecompressor')]
+    if got != ['m_buffer', 'm_buffer_size', 'm_bzstream']:
+        raise cx.ExtractError('Bzip2BufferDecompressor data members changed: %s' % got)
+    return '''
+#define BZ_OK 0
+#define BZ_STREAM_END 4
+#define BZ_UNEXPECTED_EOF (-7)
+typedef struct { char* next_in; unsigned int avail_in; char* next_out; unsigned int avail_out; } bz_stream;
+struct Bzip2BufferDecompressor { const char* m_buffer; size_t m_buffer_size; bz_stream m_bzstream; };
+char verif_outbuf[10240];
+int ghost_last_result;     /* ghost: what the last BZ2_bzDecompress call returned */
+unsigned ghost_produced;   /* ghost: bytes it delivered */
+/* BZ2_bzDecompress (bzip2 manual): consumes input, produces output, returns BZ_OK, BZ_STREAM_END at the logical end of a stream, or a negative error code.
+   BZ_OK without output means that it needs more input than there is. */
+int BZ2_bzDecompress(bz_stream* strm)
+  __CPROVER_requires(__CPROVER_rw_ok(strm, sizeof(*strm)) && strm->avail_out == 10240 && __CPROVER_pointer_equals(strm->next_out, verif_outbuf))
+  __CPROVER_assigns(strm->next_in, strm->avail_in, strm->next_out, strm->avail_out, ghost_last_result, ghost_produced)
+  __CPROVER_ensures(__CPROVER_return_value == ghost_last_result && (ghost_last_result == BZ_OK || ghost_last_result == BZ_STREAM_END || (ghost_last_result < 0 && ghost_last_result >= -9)) &&
+                    strm->avail_in <= __CPROVER_old(strm->avail_in) && ghost_produced <= 10240 && strm->avail_out == 10240 - ghost_produced && __CPROVER_pointer_equals(strm->next_out, verif_outbuf + ghost_produced) &&
+                    (ghost_last_result != BZ_OK || ghost_produced != 0 || strm->avail_in == 0));
+'''
+
+
+U_bzbread = Unit(BZ, 'read', cls='Bzip2BufferDecompressor', ret='size_t',
+                 pre=[(r'std::string output;', 'size_t output_size = 0;'), (r'output\.resize\(buffer_size\);', 'output_size = buffer_size;'), (r'&\*output\.begin\(\)', 'verif_outbuf'),
+                      (r'output\.resize\(static_cast<std::size_t>\(m_bzstream\.next_out - output\.data\(\)\)\);', 'output_size = (size_t)(m_bzstream.next_out - verif_outbuf);'),
+                      (r'output\.empty\(\)', '(output_size == 0)', '?'), (r'return output;', 'return output_size;'),
+                      (r'throw bzip2_error\{"[^"]*", [^}]*\};', 'throw bzip2_error{};')])
+
+
+def more_pipelines():
+    tail = ' __CPROVER_assert(verif_exc != 0, "canary:normal"); __CPROVER_assert(verif_exc == 0, "canary:throw"); }'
+    return [Pipeline('U3_Bzip2BufferDecompressor_read', units=[U_bzbread], prelude=bzbuf_prelude, contracts={'Bzip2BufferDecompressor_read': [
+        ('pre:a decompressor in any state', 'requires', 'verif_exc == 0 && __CPROVER_is_fresh(self, sizeof(*self)) && self->m_bzstream.avail_in <= (1u << 30)'),
+        ('post:a library error becomes bzip2_error, nothing else throws', 'ensures', 'verif_exc == 0 || verif_exc == EXC_bzip2_error'),
+        ('post:truncation is detected: the empty result (the end-of-data marker for the caller) is returned only after the library reported the end of a stream, never because the input ran out in the middle of one', 'ensures',
+         'verif_exc != 0 || __CPROVER_return_value != 0 || __CPROVER_old(self->m_buffer) == 0 || ghost_last_result == BZ_STREAM_END'),
+        ('post:concatenated streams: the decompressor declares itself finished only when no input is left', 'ensures',
+         'verif_exc != 0 || __CPROVER_old(self->m_buffer) == 0 || self->m_buffer != 0 || self->m_bzstream.avail_in == 0'),
+        ('frame', 'assigns', 'verif_exc, self->m_buffer, self->m_buffer_size, self->m_bzstream.next_in, self->m_bzstream.avail_in, self->m_bzstream.next_out, self->m_bzstream.avail_out, ghost_last_result, ghost_produced')]},
+        replace=['BZ2_bzDecompress'], enforce='Bzip2BufferDecompressor_read', known={'Bzip2BufferDecompressor_read:post:concatenated streams: the decompressor declares itself finished only when no input is left': 'F12'},
+        harness='void harness(void) { struct Bzip2BufferDecompressor* d; Bzip2BufferDecompressor_read(d);' + tail, canaries=['canary:normal', 'canary:throw'], replay=('c09_bzip2', lambda cex, o: ['bufsearch']),
+        note='memory-buffer input (Reader on a buffer); relative to the return conventions of BZ2_bzDecompress')]
+
+
+# ---- GzipBufferDecompressor::read relative to the return conventions of inflate() ---------------------------------------------------------------------------
+def gzbuf_prelude(repo):
+    src = cx.preprocess(cx.strip_comments(open(repo + '/' + GZ).read()))
+    got = [m[1] for m in cx.extract_members(src, 'GzipBufferDecompressor')]
+    if got != ['m_buffer', 'm_buffer_size', 'm_zstream']:
+        raise cx.ExtractError('GzipBufferDecompressor data members changed: %s' % got)
+    return '''
+#define Z_OK 0
+#define Z_STREAM_END 1
+#define Z_BUF_ERROR (-5)
+#define Z_SYNC_FLUSH 2
+typedef struct { unsigned char* next_in; unsigned int avail_in; unsigned char* next_out; unsigned int avail_out; const char* msg; } z_stream;
+struct GzipBufferDecompressor { const char* m_buffer; size_t m_buffer_size; z_stream m_zstream; };
+unsigned char verif_outbuf[10240];
+int ghost_last_result; unsigned ghost_produced;
+/* zlib inflate (manual): Z_OK if some progress was made, Z_STREAM_END at the end of the compressed data (of one gzip member), Z_BUF_ERROR if no progress is possible
+   (input exhausted in the middle of the data), other negative codes for errors */
+int inflate(z_stream* strm, int flush)
+  __CPROVER_requires(__CPROVER_rw_ok(strm, sizeof(*strm)) && strm->avail_out == 10240 && __CPROVER_pointer_equals(strm->next_out, verif_outbuf) && flush == Z_SYNC_FLUSH)
+  __CPROVER_assigns(strm->next_in, strm->avail_in, strm->next_out, strm->avail_out, strm->msg, ghost_last_result, ghost_produced)
+  __CPROVER_ensures(__CPROVER_return_value == ghost_last_result && (ghost_last_result == Z_OK || ghost_last_result == Z_STREAM_END || (ghost_last_result < 0 && ghost_last_result >= -6)) &&
+                    strm->avail_in <= __CPROVER_old(strm->avail_in) && ghost_produced <= 10240 && strm->avail_out == 10240 - ghost_produced && __CPROVER_pointer_equals(strm->next_out, verif_outbuf + ghost_produced) && strm->msg == 0 &&
+                    (ghost_last_result != Z_OK || ghost_produced != 0 || strm->avail_in < __CPROVER_old(strm->avail_in)));
+'''
+
+
+U_gzbread = Unit(GZ, 'read', cls='GzipBufferDecompressor', ret='size_t',
+                 pre=[(r'std::string output;', 'size_t output_size = 0;'), (r"output\.append\(buffer_size, '\\0'\);", 'output_size = buffer_size;'), (r'reinterpret_cast<unsigned char\*>\(&\*output\.begin\(\)\)', 'verif_outbuf'),
+                      (r'output\.resize\(static_cast<std::size_t>\(m_zstream\.next_out - reinterpret_cast<const unsigned char\*>\(output\.data\(\)\)\)\);', 'output_size = (size_t)(m_zstream.next_out - verif_outbuf);'),
+                      (r'throw osmium::gzip_error\{"gzip error: unexpected end of data", Z_BUF_ERROR\};', 'throw osmium::gzip_error{};', '?'), (r'std::string message\{"gzip error: inflate failed: "\};\s*if \(m_zstream\.msg\) \{\s*message\.append\(m_zstream\.msg\);\s*\}\s*throw osmium::gzip_error\{message, result\};', 'throw osmium::gzip_error{};'),
+                      (r'output\.empty\(\)', '(output_size == 0)', '?'), (r'return output;', 'return output_size;')])
+
+
+def gz_buffer_pipelines():
+    tail = ' __CPROVER_assert(verif_exc != 0, "canary:normal"); __CPROVER_assert(verif_exc == 0, "canary:throw"); }'
+    return [Pipeline('U3_GzipBufferDecompressor_read', units=[U_gzbread], prelude=gzbuf_prelude, contracts={'GzipBufferDecompressor_read': [
+        ('pre:a decompressor in any state', 'requires', 'verif_exc == 0 && __CPROVER_is_fresh(self, sizeof(*self)) && self->m_zstream.avail_in <= (1u << 30)'),
+        ('post:a library error becomes gzip_error, nothing else throws', 'ensures', 'verif_exc == 0 || verif_exc == EXC_gzip_error'),
+        ('post:truncation is detected: the empty result (end-of-data marker) is returned only after the library reported the end of the compressed data', 'ensures',
+         'verif_exc != 0 || __CPROVER_return_value != 0 || __CPROVER_old(self->m_buffer) == 0 || ghost_last_result == Z_STREAM_END'),
+        ('post:concatenated members: the decompressor declares itself finished only when no input is left', 'ensures',
+         'verif_exc != 0 || __CPROVER_old(self->m_buffer) == 0 || self->m_buffer != 0 || self->m_zstream.avail_in == 0'),
+        ('frame', 'assigns', 'verif_exc, self->m_buffer, self->m_buffer_size, self->m_zstream.next_in, self->m_zstream.avail_in, self->m_zstream.next_out, self->m_zstream.avail_out, self->m_zstream.msg, ghost_last_result, ghost_produced')]},
+        replace=['inflate'], enforce='GzipBufferDecompressor_read', known={'GzipBufferDecompressor_read:post:concatenated members: the decompressor declares itself finished only when no input is left': 'F17'},
+        harness='void harness(void) { struct GzipBufferDecompressor* d; GzipBufferDecompressor_read(d);' + tail, canaries=['canary:normal', 'canary:throw'], replay=('c09_bzip2', lambda cex, o: ['bufsearch']),
+        note='memory-buffer input; relative to the return conventions of inflate(): Z_OK always means progress, so running out of input shows up as Z_BUF_ERROR')]
